@@ -59,11 +59,14 @@ Definition tsp_bstep (rows : list tsp_st) (acts : list nat) : list tsp_st :=
 (* gather_by_index(locs, actions); get_tour_length: sum_t |roll(x,-1)_t - x_t| -- the distance is evaluated with the
    arguments (next, current) *)
 Definition tsp_reward (i : tsp_inst) (acts : list nat) : Z := - roll_sum (fun c nx => tsp_d i nx c) acts.
-(* gather raises on an index outside locs; with a SINGLE action gather_by_index squeezes the city axis away, the roll
-   then acts across the batch and the result is one 0-dim number instead of one value per row: no per-row reward *)
-Definition tsp_rewardok (i : tsp_inst) (acts : list nat) : bool :=
-  Nat.ltb 1 (length acts) && forallb (fun a => Nat.ltb a (tsp_n i)) acts.
+(* gather_by_index(locs, actions, squeeze=False) raises on an index outside locs.  (Before the fix aa30e65 --
+   recorded as fixed in known_findings.json -- a SINGLE action made gather_by_index squeeze the city axis away and the
+   result was one 0-dim number for the whole batch; the node axis is now kept for every length.) *)
+Definition tsp_rewardok (i : tsp_inst) (acts : list nat) : bool := forallb (fun a => Nat.ltb a (tsp_n i)) acts.
 
 (* ---------------------------------------------------------------- check_solution_validity *)
-(* arange(actions.size(1)) == actions.sort(1)[0]; the instance is not looked at *)
-Definition tsp_checker (acts : list nat) : bool := sorted_is_arange acts.
+(* actions.size(1) == td["locs"].size(-2)  and  arange(actions.size(1)) == actions.sort(1)[0].
+   (The length test was added by the fix 5d5f57a -- recorded as fixed in known_findings.json; before it a tour that
+   omitted the highest-numbered cities was accepted.) *)
+Definition tsp_checker (i : tsp_inst) (acts : list nat) : bool :=
+  Nat.eqb (length acts) (tsp_n i) && sorted_is_arange acts.
